@@ -648,14 +648,14 @@ theorem tallyOne_ch (env : Env) (s s' : St) (u : String) (it : Item) (h : findIt
     cases hok
     by_cases hr : (tallyOutcome s.params.rf it (proofsOf s u) env.active (env.assign u)).rejected = true
     · rw [if_pos hr] at h3
-      split at h3
-      · cases h3
-      · have B := payChallenger_fold_bankOnly (it.invColl ++ rewardShare it.pubColl ((invsOf s u).length : Int))
-          (invsOf s u) { s with items := setItem s.items { it with status := .rej, ts := s.now } }
-        cases h3
-        dsimp only
-        rw [B.chal, B.faults, B.proofs, B.invs, B.params, B.now, B.height, B.deps, B.items]
-        simp [hr]
+      have B := payChallenger_fold_bankOnly
+        (it.invColl ++ rewardShare (if ((invsOf s u).length : Int) = 0 then [] else it.pubColl)
+          ((invsOf s u).length : Int))
+        (invsOf s u) { s with items := setItem s.items { it with status := .rej, ts := s.now } }
+      cases h3
+      dsimp only
+      rw [B.chal, B.faults, B.proofs, B.invs, B.params, B.now, B.height, B.deps, B.items]
+      simp [hr]
     · rw [if_neg hr] at h3
       have B := settleVerified_fold_bankOnly it.invColl
           (tallyOutcome s.params.rf it (proofsOf s u) env.active (env.assign u)).safe (invsOf s u)
